@@ -12,7 +12,7 @@ use crate::model::gen::{GenCfg, Profile};
 use crate::model::mutate::{self, AST_RULES};
 use crate::model::print::{self, Layout};
 use crate::rng::Rng;
-use crate::util::{catch, fnv, panic_signature, par, Counts, Ctx, Tier, VERIF_DIR, WORKERS};
+use crate::util::{catch, fnv, panic_signature, par, Counts, Ctx, Tier, WORKERS};
 use garble_lang::ast::{Type, Variant};
 use garble_lang::token::{MetaInfo, SignedNumType, UnsignedNumType};
 use garble_lang::{CompileTimeError, TypedProgram};
@@ -302,7 +302,7 @@ struct Fe {
 static SPAWN_COUNTER: std::sync::atomic::AtomicU64 = std::sync::atomic::AtomicU64::new(0);
 
 fn work_dir() -> PathBuf {
-    let d = PathBuf::from(VERIF_DIR).join(".work").join(format!("c07-{}", std::process::id()));
+    let d = crate::util::verif_dir().join(".work").join(format!("c07-{}", std::process::id()));
     let _ = std::fs::create_dir_all(&d);
     d
 }
